@@ -10,6 +10,7 @@ import (
 	"os"
 	"path/filepath"
 	"sort"
+	"strconv"
 	"strings"
 	"syscall"
 
@@ -209,6 +210,14 @@ func runTargets(t *simrt.Tape, keep bool) simrt.Outcome {
 		vs = append(vs, "def-"+tHdrVals[t.Choose(3)])
 		if cap(vs) > 1 && t.Prob(1, 2) {
 			vs = append(vs, "def2")
+		}
+		if t.Prob(1, 12) {
+			// a long value list (-header given many times for one key): a copy made with append gets whatever
+			// capacity the allocator's size classes round it up to, so "a fresh copy" is not "no spare capacity"
+			for m := 3 + t.Choose(60); len(vs) < m; {
+				vs = append(vs, "def-"+strconv.Itoa(len(vs)))
+			}
+			r.stats["probe.default-header-with-many-values"]++
 		}
 		defHdr[k] = vs
 	}
